@@ -375,6 +375,9 @@ def norm_py(fd, pv):
     if pv is None:
         return None
     if k == 'uint':
+        if fd.get('base') == 'members' and not fd.get('in_list'):
+            # a field typed with an Enum / Flag reads back as a MEMBER of that type, the zero-valued one included
+            return ['member' if isinstance(pv, enum.Enum) else 'plain-int', pv.value if isinstance(pv, enum.Enum) else int(pv)]
         return pv.value if isinstance(pv, enum.Enum) else int(pv)
     if k == 'bool':
         return bool(pv)
@@ -412,6 +415,8 @@ def norm_json(fd, v):
         return S.name_comps(v)
     if k == 'model':
         return {f['n']: norm_json(f, v.get(f['n'])) for f in fd['m']['fields']}
+    if k == 'uint' and fd.get('base') == 'members' and not fd.get('in_list'):
+        return ['member', v]
     return v
 
 
